@@ -62,6 +62,7 @@ type c14Exp struct {
 	desc    string
 	sender  string
 	skipTx  bool // no per-account model for this tx kind (only global invariants)
+	call    bool // contract call
 	deltas  map[string]*big.Int
 	success bool
 	neg     bool // negative amount: either verdict is fine as long as nothing moves
@@ -128,13 +129,32 @@ func (in *c14Inst) mkTx(desc string, bal map[string]*big.Int) (pb.Transaction, *
 	case "store": // successful contract call
 		k := c14Actors[f[1]]
 		tx := w.InvokeTx(k, constant.StoreContractAddr, "Set", pb.String("k"), pb.String("v"))
-		return tx, &c14Exp{desc: desc, sender: fix.Addr(k).String(), skipTx: true}
+		return tx, c14CallExp(desc, fix.Addr(k).String(), bal, true)
 	case "badcall": // failing contract call
 		k := c14Actors[f[1]]
 		tx := w.InvokeTx(k, constant.GovernanceContractAddr, "Vote", pb.String("nonexistent"), pb.String("approve"), pb.String("r"))
-		return tx, &c14Exp{desc: desc, sender: fix.Addr(k).String(), skipTx: true}
+		return tx, c14CallExp(desc, fix.Addr(k).String(), bal, false)
 	}
 	panic("bad c14 tx " + desc)
+}
+
+// c14CallExp: a built-in contract call moves no balance itself; the sender pays the flat
+// contract-call fee, or (when it cannot) the call's effect is undone and it pays what it has.
+func c14CallExp(desc, sender string, bal map[string]*big.Int, callOK bool) *c14Exp {
+	e := &c14Exp{desc: desc, sender: sender, call: true, deltas: map[string]*big.Int{}, success: callOK}
+	have := big.NewInt(0)
+	if b, ok := bal[sender]; ok {
+		have = new(big.Int).Set(b)
+	}
+	if have.Cmp(c14FeeB) < 0 {
+		e.success = false
+		e.deltas[sender] = new(big.Int).Neg(have)
+		e.deltas["fee"] = have
+	} else {
+		e.deltas[sender] = new(big.Int).Neg(c14FeeB)
+		e.deltas["fee"] = new(big.Int).Set(c14FeeB)
+	}
+	return e
 }
 
 func c14Check(c *mc.Ctx, in *c14Inst, spec string, path []string) {
@@ -220,9 +240,12 @@ func c14Check(c *mc.Ctx, in *c14Inst, spec string, path []string) {
 		}
 		if res.Receipts[i].IsSuccess() != e.success && !(e.neg && e.success) {
 			f := strings.Split(e.desc, ":")
-			cls := f[3]
-			if f[1] == f[2] {
-				cls = "self-" + cls
+			cls := f[0]
+			if !e.call {
+				cls = f[3]
+				if f[1] == f[2] {
+					cls = "self-" + cls
+				}
 			}
 			bad("transfer-verdict|"+cls, "tx %d (%s): receipt success=%v ret=%q, reference says success=%v", i, e.desc, res.Receipts[i].IsSuccess(), res.Receipts[i].Ret, e.success)
 		}
@@ -240,10 +263,10 @@ func c14Check(c *mc.Ctx, in *c14Inst, spec string, path []string) {
 					f := strings.Split(e.desc, ":")
 					if a == e.sender {
 						cls = "sender"
-					} else if a == fix.Addr(c14Actors[f[2]]).String() {
+					} else if !e.call && a == fix.Addr(c14Actors[f[2]]).String() {
 						cls = "receiver"
 					}
-					if f[1] == f[2] {
+					if !e.call && f[1] == f[2] {
 						cls += "-self-transfer"
 					}
 					if e.neg {
@@ -285,9 +308,38 @@ func C14(c *mc.Ctx) {
 		Close: func(x mc.Instance) { x.(*c14Inst).w.R.Close() },
 	}
 	b.Run()
+	// every ordered pair (thorough: triple) of the single-transaction kinds as ONE block on the
+	// base state: a later transaction of a block meets accounts that an earlier one has
+	// already written (or failed to write) in the same block
+	var single []string
+	for _, a := range alphabet {
+		if !strings.Contains(a, "+") {
+			single = append(single, a)
+		}
+	}
+	var specs []string
+	for _, a := range single {
+		for _, b := range single {
+			specs = append(specs, a+"+"+b)
+			if !c.Quick() {
+				for _, d := range single {
+					specs = append(specs, a+"+"+b+"+"+d)
+				}
+			}
+		}
+	}
+	for _, spec := range specs {
+		if c.Expired("c14 in-block tuples") {
+			break
+		}
+		in := &c14Inst{w: c14Base()}
+		c14Check(c, in, spec, []string{spec})
+		in.w.R.Close()
+		c.Add("in_block_tuples", 1)
+	}
 	c14Grants(c)
 	fix.Cleanup()
-	c.Set("rule", "BFS over block histories (depth 2, thorough 3) of 23 block kinds: transfers with amount in {0,1,balance,balance+1,balance-fee,10^40,non-numeric,negative} between rich/poor/self/admin accounts whose balances sit at fee-1, fee, fee+1, fee+9, plus succeeding and failing contract calls and multi-tx blocks; per block: sum of persisted balances, sign of every balance, receipt verdicts and (for transfer-only blocks) every account balance against an arithmetic reference")
+	c.Set("rule", "BFS over block histories (depth 2, thorough 3) of 23 block kinds: transfers with amount in {0,1,balance,balance+1,balance-fee,10^40,non-numeric,negative} between rich/poor/self/admin accounts whose balances sit at fee-1, fee, fee+1, fee+9, plus succeeding and failing contract calls and multi-tx blocks, plus every ordered pair (thorough: triple) of the single-transaction kinds as one block; per block: sum of persisted balances, sign of every balance, receipt verdicts and (for transfer-only blocks) every account balance against an arithmetic reference")
 	c.Assume("gas price 50000, 4 admins; the admin grant path (RegisterRole approval) is not in this alphabet")
 	if c.Get("blocks_with_exact_model") == 0 {
 		c.HarnessError("vacuous")
